@@ -8,6 +8,8 @@ import time
 import catalogue
 import common
 import e1
+import e2
+import e2_c06
 from common import BUILD, Machinery
 
 
@@ -205,6 +207,8 @@ PROPS["C18"] = _e1({
                          "fit_calls": 500}},
 })
 
+PROPS["C06"] = lambda prop, tier, seed, t0: e2_c06.run(prop, tier, seed, t0)
+
 
 def setup():
     t0 = time.time()
@@ -236,6 +240,26 @@ def replay(path):
             print("  observed: %s" % x["observed"])
             print("  expected: %s" % x["expected"])
         if hits:
+            print("VIOLATION property=%s replay=%s" % (prop, path))
+            return 1
+        print("not reproduced on the current tree")
+        return 0
+    if v.get("engine") == "E2":
+        catalogue.generate(BUILD)
+        d = e2.gen_dir("replay")
+        src = os.path.join(d, "replay.rs")
+        with open(src, "w", encoding="utf-8") as f:
+            f.write(v["program"] + "\n")
+        r1 = e2.rustc_check(src, v["backend"])
+        r2 = e2.rustc_check(src, v["backend"])
+        if r1 != r2:
+            raise Machinery("replay is not deterministic")
+        errs = [x for x in r1[1] if x["level"] == "error"]
+        got = "reject" if errs else "accept"
+        print("replay of %s (%s): rustc verdict %s, expected %s" % (prop, v["backend"], got, v["expect"]))
+        for x in errs[:5]:
+            print("  %s line %s: %s" % (x["code"], x["line"], x["message"]))
+        if got != v["expect"] or v.get("always"):
             print("VIOLATION property=%s replay=%s" % (prop, path))
             return 1
         print("not reproduced on the current tree")
